@@ -1,6 +1,21 @@
 #!/bin/sh
-# (re)generate the Makefile from _CoqProject + every .v file, then build the given targets
+# (re)generate the Makefile from _CoqProject + every .v file, then build the given targets.
+# Only the Makefile generation is serialised: callers may wrap this script in
+# `flock /verif/cache/coq.lock`; the inherited lock is released before `make` starts so that one
+# long proof does not block every other check.
 cd "$(dirname "$0")"
-{ cat _CoqProject; find Model Gen Proofs Props Checks -name '*.v' | sort; } > .CoqProject.full
-coq_makefile -f .CoqProject.full -o Makefile >/dev/null 2>&1
-exec make -j16 "$@"
+mkdir -p ../cache
+(
+  flock 9
+  { cat _CoqProject; find Model Gen Proofs Props Checks -name '*.v' | sort; } > .CoqProject.full.$$
+  if ! cmp -s .CoqProject.full.$$ .CoqProject.full 2>/dev/null || [ ! -f Makefile ]; then
+    mv .CoqProject.full.$$ .CoqProject.full
+    coq_makefile -f .CoqProject.full -o Makefile >/dev/null 2>&1
+  else
+    rm -f .CoqProject.full.$$
+  fi
+) 9>../cache/coq-gen.lock
+for fd in /proc/$$/fd/*; do
+  if [ "$(readlink "$fd" 2>/dev/null)" = "/verif/cache/coq.lock" ]; then flock -u "${fd##*/}" 2>/dev/null; fi
+done
+exec timeout 2400 make -j8 "$@"
